@@ -7,7 +7,9 @@ What is replaced inside this child process (nothing in /repo, nothing in the emi
   * random.uniform (the jitter: "max" -> upper bound, "min" -> lower bound, or a fraction in [0,1]),
   * the default clock of google.api_core.timeout.TimeToDeadlineTimeout.
 stdin JSON: {"root": dir, "package": "...", "calls": [spec...]}
-spec: {"service_module", "client", "transport": "grpc"|"grpc_asyncio", "method", "request_cls", "path": "/pkg.Svc/Rpc",
+spec: {"service_module", "client", "transport": "grpc"|"grpc_asyncio"|"rest" (rest: status codes NOT_FOUND, INTERNAL, UNIMPLEMENTED,
+       UNAVAILABLE only, sent as HTTP 404/500/501/503; the timeout is read off the transport's session), "method", "request_cls",
+       "request_fields": {...}, "path": "/pkg.Svc/Rpc" (rest: the URL path),
        "script": ["UNAVAILABLE", "OK", ...]  (one entry per attempt; after the script the server answers "after"),
        "after": "OK"|code, "jitter": "max"|"min"|0.5, "retry": absent | "none" | {initial, maximum, multiplier, codes, deadline},
        "timeout": absent | null | number, "max_attempts_guard": 60}
@@ -83,6 +85,9 @@ class Patched:
         self.saved_defaults[0].__defaults__ = self.saved_defaults[1]
 
 
+HTTP_STATUS = {"NOT_FOUND": 404, "INTERNAL": 500, "UNIMPLEMENTED": 501, "UNAVAILABLE": 503}
+
+
 def call_kwargs(spec, is_async):
     kw = {}
     if "timeout" in spec:
@@ -111,8 +116,18 @@ def make_client(pkg, spec, target, seen):
     svc = importlib.import_module(f"{pkg}.services.{spec['service_module']}")
     tm = D.transports_module(pkg, spec["service_module"])
     is_async = spec["transport"] == "grpc_asyncio"
-    suffix = "GrpcAsyncIOTransport" if is_async else "GrpcTransport"
+    suffix = {"grpc": "GrpcTransport", "grpc_asyncio": "GrpcAsyncIOTransport", "rest": "RestTransport"}[spec["transport"]]
     tcls = getattr(tm, sorted([n for n in dir(tm) if n.endswith(suffix) and not n.startswith("_")], key=len)[0])
+    if spec["transport"] == "rest":
+        from google.auth.credentials import AnonymousCredentials
+        tr = tcls(host=target, url_scheme="http", credentials=AnonymousCredentials())
+        real = tr._session.request
+
+        def recording_request(method, url, *a, **k):
+            seen.append(k.get("timeout"))
+            return real(method, url, *a, **k)
+        tr._session.request = recording_request
+        return getattr(svc, spec["client"])(transport=tr)
     if is_async:
         class Rec(grpc.aio.UnaryUnaryClientInterceptor):
             async def intercept_unary_unary(self, continuation, details, request):
@@ -134,11 +149,11 @@ def run_one(spec, gs, pkg, clock, seen):
     if is_async:
         async def go():
             client = make_client(pkg, spec, gs.target, seen)
-            req = D.resolve(spec["request_cls"])()
+            req = D.resolve(spec["request_cls"])(**(spec.get("request_fields") or {}))
             return await getattr(client, spec["method"])(request=req, **kw)
         return asyncio.run(go())
-    client = make_client(pkg, spec, gs.target, seen)
-    req = D.resolve(spec["request_cls"])()
+    client = make_client(pkg, spec, gs.target if spec["transport"] != "rest" else gs.http_host, seen)
+    req = D.resolve(spec["request_cls"])(**(spec.get("request_fields") or {}))
     return getattr(client, spec["method"])(request=req, **kw)
 
 
@@ -146,6 +161,8 @@ def main():
     payload = json.load(sys.stdin)
     sys.path.insert(0, payload["root"])
     gs = D.GrpcLoopback()
+    hs = D.HttpLoopback()
+    gs.http_host = hs.host
     results = []
     for spec in payload["calls"]:
         clock = Clock(spec.get("jitter", "max"))
@@ -153,6 +170,15 @@ def main():
         gs.set_script({spec["path"]: replies})
         after = spec.get("after", "OK")
         gs.default_reply = {"messages": [""]} if after == "OK" else {"code": after}
+
+        def http_reply(c):
+            if c == "OK":
+                return {"status": 200, "body": "{}"}
+            st = HTTP_STATUS[c]
+            return {"status": st, "body": json.dumps({"error": {"code": st, "message": "scripted", "status": c}})}
+        if spec["transport"] == "rest":
+            hs.set_script([http_reply(c) for c in spec["script"]])
+            hs.default_reply = http_reply(after)
         # the handler stamps each call with the virtual time at which it arrived
         rec = {"ok": True}
         seen = []
@@ -180,11 +206,14 @@ def main():
                 rec["traceback"] = traceback.format_exc()[-800:]
         calls = gs.take_calls()
         rec["attempts"] = [{"path": c["path"], "time_remaining": c["time_remaining"]} for c in calls]
+        if spec["transport"] == "rest":
+            rec["attempts"] = [{"path": c["path"], "time_remaining": None, "verb": c["verb"]} for c in hs.take_calls()]
         rec["client_timeouts"] = seen
         rec["sleeps"] = clock.sleeps
         rec["uniform"] = clock.uniform
         results.append(rec)
     gs.stop()
+    hs.stop()
     print()
     print(json.dumps(results))
 
